@@ -34,7 +34,7 @@ ASSUMPTIONS = [
     'blinds only and equal stacks (with antes the "chips committed" of the '
     'writer would include the ante, which the parser does not subtract)',
 ]
-CASES = {'quick': 10000, 'thorough': 120000}
+CASES = {'quick': 6000, 'thorough': 90000}
 TIME = {'quick': 75, 'thorough': 560}
 MIN_NONTRIVIAL = {'quick': 1000, 'thorough': 8000}
 REQUIRED = ('pluribus_lines_compared', 'acpc_viewer_sequences_compared',
